@@ -375,6 +375,13 @@ def gen_iter_plan(rng, mode="C08"):
             ops.append({"op": "drain", "task": tid})
     share_ranges(ops, pool)
     if mode == "C08":
+        import random
+
+        r3 = random.Random("fork:" + repr(len(ops)) + repr([sp.get("kind") for sp in pool]))
+        for o in ops:
+            if o["op"] == "start" and pool[o["obj"] % len(pool)]["kind"] in ("kepler", "j2", "keplernum") and r3.random() < 0.35:
+                o["call"]["fork_items"] = True  # the consumer goes on from the points it is handed (they are orbits with propagators)
+    if mode == "C08":
         ops[:] = insert_set_order(ops, pool)
     knobs["nontrivial_hint"] = hint
     return {"knobs": knobs, "ops": ops}
